@@ -15,9 +15,10 @@ class Refuse(Exception):
 # ------------------------------------------------------------------ tokenizer
 TOK = re.compile(r"""
   (?P<ws>\s+|//[^\n]*|/\*.*?\*/)
+ |(?P<str>"(?:[^"\\]|\\.)*")
  |(?P<num>\d+\.\d*(?:[eE][+-]?\d+)?|\d+[eE][+-]?\d+|\d+)(?:_?f64|_?f32)?
  |(?P<id>[A-Za-z_][A-Za-z_0-9]*)
- |(?P<op>::|->|=>|==|!=|<=|>=|&&|\|\||[-+*/%=<>!&|.,;:()\[\]{}'#?])
+ |(?P<op>::|->|=>|==|!=|<=|>=|\+=|-=|&&|\|\||[-+*/%=<>!&|.,;:()\[\]{}'#?])
 """, re.X | re.S)
 
 
